@@ -32,10 +32,18 @@ def indexed_only(db, ctx):
     adds = [(c, ps) for c, ps in walk(f.hir) if is_call(c) and path_ends(callee(c), "IndexBuilder::add")]
     if not adds:
         raise AnchorMissing("write_index: IndexBuilder::add call")
+    from ..loops import chain as lchain, filter_atoms
+    is_si = lambda a, p: peel(a).get("k") == "MethodCall" and peel(a).get("method") == "should_index" and p is True
     for c, ps in adds:
         pcs = path_conditions(c["id"], f.hir) or []
-        ok = any(peel(a).get("k") == "MethodCall" and peel(a).get("method") == "should_index" and p is True
-                 for cn, pol in pcs if isinstance(cn, dict) for a, p in atoms(cn, pol))
+        ok = any(is_si(a, p) for cn, pol in pcs if isinstance(cn, dict) for a, p in atoms(cn, pol))
+        # the same condition stated as a `.filter(|(_, e)| e.should_index())` on the loop's iterator
+        for p_ in ps:
+            fl = for_loop_parts(p_) if p_.get("k") == "Match" else None
+            if fl:
+                for m, call in lchain(db, f, fl[0])[0]:
+                    if m == "filter" and any(is_si(a, p) for a, p in (filter_atoms(call) or [])):
+                        ok = True
         ctx.ob("write_index|add-under-should_index", ok, "IndexBuilder::add is control-dependent on e.should_index(): %s" % ok, fn=f, site=c.get("sp"))
     si = db.one("should_index", "RawLexiconEntry")
     body = peel(si.hir.get("expr") or si.hir)
@@ -48,12 +56,19 @@ def indexed_only(db, ctx):
                             "params and word-info writers iterate the same slice without reordering adaptors")
 def id_is_position(db, ctx):
     f = db.one("write_index", "DictBuilder")
+    from ..loops import chain as lchain, filter_atoms
     for n, (it, pat, body), ps in _loops(f):
-        names, base = _chain(it)
         if not mentions(body, is_call_to("IndexBuilder::add")):
             continue
+        ch, base = lchain(db, f, it)
+        names = [m for m, _ in ch]
         src_ok = "entries" in names or mentions(it, is_call_to("LexiconReader::entries"))
-        chain_ok = "enumerate" in names and not (set(names) & REORDER)
+        # positions are fixed where enumerate() is applied: nothing may drop / reorder elements before it; after it only a filter
+        # on should_index() (the indexed-only condition itself) may drop elements
+        ei = names.index("enumerate") if "enumerate" in names else -1
+        after_ok = all(m == "filter" and filter_atoms(c_) is not None and all(
+            peel(a).get("k") == "MethodCall" and peel(a).get("method") == "should_index" and p for a, p in filter_atoms(c_)) for m, c_ in ch[ei + 1:])
+        chain_ok = ei >= 0 and not (set(names[:ei]) & REORDER) and after_ok
         ctx.ob("write_index|loop", src_ok and chain_ok, "index loop iterates `%s` (must be entries().iter().enumerate() with no reordering "
                                                         "adaptor)" % render(it), fn=f, site=n.get("sp"))
         pb = pat_bindings(pat)
